@@ -920,6 +920,10 @@ func observeApply(c *ApplyCase) {
 	e := newEnv(c)
 	c.Steps, c.Final, c.What, c.WhatAt = nil, nil, "", 0
 	applied := map[common.Hash]bool{}
+	kinds := map[common.Address]int{}
+	for _, a := range c.Accts {
+		kinds[common.HexToAddress(a.Addr)] = a.Kind
+	}
 	flag := func(i int, what string) {
 		if c.What == "" {
 			c.What, c.WhatAt = what, i
@@ -983,10 +987,28 @@ func observeApply(c *ApplyCase) {
 			if e.used != preUsed || e.rewards.Cmp(preRewards) != 0 {
 				flag(i, "a transaction refused up front changed the used gas or the gas rewards")
 			}
+			// the reason given must be true (a refusal for a wrong reason keeps a valid transaction out)
+			costPre := new(big.Int).Mul(new(big.Int).SetUint64(m.Gas), price)
 			switch so.Code {
-			case 2, 3:
-				if pre[from].Nonce == m.Nonce && !m.BadSig {
-					flag(i, "nonce error although the nonce is the account's next nonce")
+			case 1:
+				if !m.BadSig {
+					flag(i, "a correctly signed transaction was refused as unsigned")
+				}
+			case 2:
+				if !(pre[from].Nonce < m.Nonce) {
+					flag(i, "refused as nonce too high although it is not")
+				}
+			case 3:
+				if !(pre[from].Nonce > m.Nonce) {
+					flag(i, "refused as nonce too low although it is not")
+				}
+			case 4:
+				if num(pre[from].Bal).Cmp(costPre) >= 0 {
+					flag(i, "refused as unable to pay for gas although the balance covers it")
+				}
+			case 5:
+				if prePool >= m.Gas {
+					flag(i, "refused as block gas exhausted although the pool covers the gas limit")
 				}
 			}
 		case so.Code == 0:
@@ -1012,6 +1034,9 @@ func observeApply(c *ApplyCase) {
 			}
 			if gas < intrinsicOf(m) || gas > m.Gas {
 				flag(i, "gas used outside [intrinsic gas, gas limit]")
+			}
+			if !isStk && m.To != nil && kinds[watch[1]] == 0 && gas != intrinsicOf(m) {
+				flag(i, "a plain transfer used gas other than the intrinsic gas")
 			}
 			// what the transaction moves out of the sender
 			moved := new(big.Int)
